@@ -377,11 +377,75 @@ def r02_4(run):
                "Operation.__init__ initialises where/replay_*" if ok else "self.where / replay_* are never initialised for this op")
 
 
+BOOL_MAKERS = {"isclose", "isnan", "isinf", "isfinite", "logical_not", "logical_and", "logical_or", "logical_xor", "greater", "less",
+               "greater_equal", "less_equal", "equal", "not_equal", "signbit", "any", "all"}
+
+
+def _proven_bool(run, fi: FunctionInfo, e: ast.AST, cls: Optional[ClassInfo], depth=0) -> bool:
+    fx = facts(run)
+    if depth > 4:
+        return False
+    if isinstance(e, ast.Compare):
+        return True
+    if isinstance(e, ast.UnaryOp) and isinstance(e.op, (ast.Invert, ast.Not)):
+        return _proven_bool(run, fi, e.operand, cls, depth + 1)
+    if isinstance(e, ast.BoolOp) or (isinstance(e, ast.BinOp) and isinstance(e.op, (ast.BitAnd, ast.BitOr, ast.BitXor))):
+        parts = e.values if isinstance(e, ast.BoolOp) else [e.left, e.right]
+        return all(_proven_bool(run, fi, p, cls, depth + 1) for p in parts)
+    if isinstance(e, ast.Call):
+        ext = fx.ext_name_of(fi, e.func) or ""
+        if ext.split(".")[-1] in BOOL_MAKERS:
+            return True
+        d = kw(e, "dtype")
+        if ext.split(".")[-1] in ("asarray", "array", "zeros", "ones", "zeros_like", "ones_like", "full") and d is not None and norm(d) in ("bool", "np.bool_"):
+            return True
+        if isinstance(e.func, ast.Attribute) and e.func.attr == "astype" and e.args and norm(e.args[0]) in ("bool", "np.bool_"):
+            return True
+        return False
+    if isinstance(e, ast.IfExp):
+        return _proven_bool(run, fi, e.body, cls, depth + 1) and _proven_bool(run, fi, e.orelse, cls, depth + 1)
+    if isinstance(e, ast.Name):
+        vals = [n.value for n in own_nodes(fi.node) if isinstance(n, ast.Assign) and any(isinstance(t, ast.Name) and t.id == e.id for t in n.targets)]
+        return bool(vals) and all(_proven_bool(run, fi, v, cls, depth + 1) for v in vals)
+    if isinstance(e, ast.Attribute) and norm(e.value) == "self" and cls is not None:
+        vals = []
+        for k in cls.mro():
+            for m in k.methods.values():
+                for n in own_nodes(m.node):
+                    if isinstance(n, (ast.Assign, ast.AnnAssign)) and getattr(n, "value", None) is not None and any(
+                            norm(t) == f"self.{e.attr}" for t in (n.targets if isinstance(n, ast.Assign) else [n.target])):
+                        vals.append((m, n.value))
+        return bool(vals) and all(_proven_bool(run, m, v, cls, depth + 1) for m, v in vals)
+    return False
+
+
+def r02_5(run):
+    """bitwise `~` used as logical negation must act on a proven-boolean value (on integer arrays it is a bitwise NOT)"""
+    n = 0
+    seen = set()
+    for c in run.project.operation_classes():
+        for mname in ("__call__", "backward", "backward_var"):
+            m = c.methods.get(mname)
+            if m is None or m.qualname in seen:
+                continue
+            seen.add(m.qualname)
+            for x in own_nodes(m.node):
+                if isinstance(x, ast.UnaryOp) and isinstance(x.op, ast.Invert):
+                    n += 1
+                    ok = _proven_bool(run, m, x.operand, c)
+                    run.ob("R02.5", loc(m, x), m.short, f"`~{norm(x.operand)[:40]}` negates a boolean mask", ok,
+                           "operand is a comparison / logical ufunc / explicitly cast to bool on every assignment" if ok else
+                           "operand is not guaranteed boolean: for an integer-valued mask `~m` is the bitwise NOT (all non-zero), so the "
+                           "complementary operand receives gradient everywhere")
+    run.count("bitwise-not sites in op methods", n)
+
+
 def check(run):
     run.rule("R02.1", "derivative-table agreement in the term domain: for every closed-form op and operand k, the symbolic term of "
              "backward_var|index=k equals g * d(forward term)/dx_k at exact sample points of the kernel's domain (and simplifies to 0 where "
              "sympy can show it); documented conventions at non-differentiable points", floor=35)
     run.rule("R02.2", "every backward_var is (abstractly) homogeneous-linear in grad (linearity domain)", floor=60)
+    run.rule("R02.5", "`~mask` in op methods acts on proven-boolean values", floor=2)
     run.rule("R02.3", "backward_var|index=k returns a value for every k < arity", floor=90)
     run.rule("R02.4", "state read by backward/backward_var is definitely assigned by __call__ (tracking on) / __init__ / class body / wrapper; "
              "__init__ overrides reach super().__init__()", floor=90)
@@ -390,4 +454,5 @@ def check(run):
     linearity.r02_2(run)
     r02_3(run)
     r02_4(run)
+    r02_5(run)
     run.assume("term domain: NumPy elementwise functions are identified with their mathematical definitions on the reals (table in sa/terms.py)")
